@@ -178,6 +178,24 @@ def run(ctx):
     mk = [c for c in walk_shallow(bf) if isinstance(c, ast.Call) and dotted(c.func) == 'make_func']
     ok = len(mk) == 1 and any(k.arg == 'func_wrapped' for k in mk[0].keywords)
     ctx.ob('C13.R5', 'beartype_func:func_wrapped-passed', nm.where(bf), 'the wrapper is built with func_wrapped=', ok, '')
+    # ... and what it exposes as __wrapped__ is the callable that was decorated (the class-dictionary entry
+    # itself), not something unwrapped from it
+    val = next((norm(k.value) for c in mk for k in c.keywords if k.arg == 'func_wrapped'), None)
+    cd = repo.mod('beartype._check.cls.call.calldatadecorfunc')
+    ri = repo.find_def(cd.name, 'BeartypeCallDecorFuncData.reinit')
+    src_ok = False
+    if val is not None and val.startswith('decor_func.'):
+        attr = val.split('.', 1)[1]
+        sets = [a for a in walk_shallow(ri) if isinstance(a, ast.Assign) and norm(a.targets[0]) == f'self.{attr}']
+        # the attribute is set from reinit()'s own func_wrapper parameter, which defaults to the decorated callable
+        dflt = [a for a in ast.walk(ri) if isinstance(a, ast.Assign) and norm(a.targets[0]) == 'func_wrapper' and norm(a.value) == 'func_wrappee']
+        src_ok = len(sets) == 1 and norm(sets[0].value) == 'func_wrapper' and 'func_wrapper' in params_of(ri) and 'func_wrappee' in params_of(ri) \
+            and len(dflt) == 1
+    ctx.ob('C13.R5', 'beartype_func:__wrapped__-is-the-decorated-callable', nm.where(bf),
+           'func_wrapped= is the callable that was passed to the decorator (reinit()\'s func_wrapper parameter, which '
+           'defaults to the decorated callable)', src_ok,
+           f'func_wrapped={val}: name, docstring, attributes and __wrapped__ of the wrapper come from another object '
+           f'than the one that was decorated')
     mm = repo.mod('beartype._util.func.utilfuncmake')
     mf = mm.defs.get('make_func')
     ctx.require(mf is not None, 'anchor vanished: make_func')
@@ -205,3 +223,12 @@ def run(ctx):
     # trusts it treats a wraps-copy of a beartype wrapper as a beartype wrapper (rule shared with C14.R7)
     from .c14 import _function_attribute_memos
     _function_attribute_memos(ctx, 'C13.R6', marker=True)
+
+    # ---- R7 ----------------------------------------------------------------------
+    # class route == per-member route: members of a class being decorated take the same fatal / non-fatal route as
+    # a module-level callable (interpreted route selection of beartype_object; shared with C05.R6)
+    ctx.rule('C13.R7', 'beartype_object selects the non-fatal route exactly when the configuration names a warning class, '
+             'whether or not a class stack is passed (members of a class being decorated are handled like the same '
+             'callables decorated one by one)')
+    from .c05 import _route_selection
+    _route_selection(ctx, 'C13.R7')
